@@ -38,7 +38,7 @@ MATH_OPS = ['+', '-', '=', '\\cdot', '\\le', '<', '\\to', '\\times', '/', ':=', 
 MATH_SPACES = ['\\,', '\\;', '~', '\\ ', '\\quad', '\\qquad', '\\:']
 PUNCT = ['.', ',', ';', ':']
 EQ_ENVS = ['equation', 'equation*', 'align', 'align*', 'displaymath', 'eqnarray', 'eqnarray*', 'gather', 'alignat*',
-           'flalign', 'multline']
+           'flalign', 'gather*']
 LANG_NAMES = ['german', 'english', 'russian', 'french', 'ngerman', 'american']
 
 class G:
@@ -87,8 +87,8 @@ class G:
             if i:
                 if allow_par and self.rng.random() < 0.12:
                     items.append(self.par())
-                elif self.rng.random() < 0.92:
-                    items.append(self.ws())
+                elif self.rng.random() < 0.92 or items[-1].get('t') == 'imath':
+                    items.append(self.ws())          # (two adjacent formulas would read `$$`)
             items.append(self.item(allow_par, ctx))
         return {'t': 'seq', 'items': items}
 
@@ -118,6 +118,11 @@ class G:
                         (2, self.c_verbatim), (2, self.c_skip), (3, self.c_newcommand), (2, self.c_theorem),
                         (2, self.c_env_known), (1, self.c_selectlanguage), (1, self.c_otherlanguage),
                         (1, self.c_proof), (1, self.c_caption_fig), (1, self.c_usepackage)]
+        only = self.p('only', None)
+        if only is not None:
+            choices = [(w, f) for (w, f) in choices if f.__name__ in only]
+            if not choices:
+                return self.word()
         tot = sum(w for w, _ in choices)
         x = rng.random() * tot
         for w, f in choices:
@@ -167,7 +172,10 @@ class G:
 
     def c_inline_math(self):
         rng = self.rng
-        return {'t': 'imath', 'delim': rng.choice(['$', '$', '\\(']), 'body': self.math_body(),
+        body = self.math_body()
+        if rng.random() < 0.12:
+            body = rng.choice(MATH_OPS + ['\\le', '=', ':', '\\ldots'])     # operator-only / degenerate formulas
+        return {'t': 'imath', 'delim': rng.choice(['$', '$', '\\(']), 'body': body,
                 'lead': rng.choice(['', '', '', '\\,', '~']), 'trail': rng.choice(['', '', '', '\\;', '\\ ']),
                 'punct': rng.choice(['', '', '', '.', ',', ';', ':'])}
 
